@@ -140,5 +140,16 @@ CLAIMED = {
         'encoding (either side of each Either) is parsed to m; same for the stand-alone wrappers.',
    note='Trusted: z3; specs/tlbspec.py, specs/dictspec.py, specs/cellspec.py. One Bool flag is symbolic per instance (each symbolic flag doubles the paths). '
         'Headers that cannot fit a cell at all and addr_var are outside the claim.'),
+ 'C16': dict(
+   text='Bounded symbolic execution of the real TL-B parsers (Transaction and its 7 description kinds with all phase variants, Account/ShardAccount/'
+        'AccountStorage/AccountState/StorageInfo, InMsg/OutMsg/MsgEnvelope/IntermediateAddress/ImportFees, BlockInfo with all 16 combinations of its '
+        'conditional fields, BlkPrevInfo, ExtBlkRef, ShardIdent, GlobalVersion, ValueFlow (both versions), ShardDescr (both), FutureSplitMerge, '
+        'ValidatorSet (both constructors, 0..3 validators), ValidatorDescr, SigPubKey, CatchainConfig) on cells produced by the schema-driven encoder of '
+        'specs/tlbschema.py (constructors transcribed from block.tlb, names and tags linted against the repository copy): every constructor alternative '
+        'forced in turn, optional fields by seed, ALL field values symbolic: every attribute equals the encoded value (unsigned stays unsigned) and exactly '
+        'the encoded bits and references are consumed (a symbolic tail and a surplus reference must remain). The header of the bundled main-net block is '
+        'compared with an independent bit-level reading.',
+   note='Trusted: z3; specs/tlbschema.py and specs/tlbspec.py. Field-less constructors the library represents by None (account_none, fsm_none) and two '
+        'attribute aliases (seqno) are accepted as such. McStateExtra/BlockExtra/AccountBlock dictionaries are outside the claim; one Bool is symbolic per instance.'),
 }
 NOT_APPLICABLE = {}
